@@ -782,6 +782,43 @@ fn dump_crate<'tcx>(tcx: TyCtxt<'tcx>, name: &str) -> String {
         dump_body(tcx, *owner, body, &mut out);
     }
 
+    // foreign enums mentioned in the types of the dumped bodies' locals: variant names and discriminant values (a `match` on
+    // a foreign enum that binds nothing shows only discriminant values in MIR)
+    {
+        let mut fenums: std::collections::BTreeMap<String, String> = std::collections::BTreeMap::new();
+        for (_owner, body) in bodies.iter() {
+            for decl in body.local_decls.iter() {
+                for arg in decl.ty.walk() {
+                    if let Some(t) = arg.as_type() {
+                        if let ty::Adt(def, _) = t.kind() {
+                            if def.is_enum() && !def.did().is_local() {
+                                let p = dpath(tcx, def.did());
+                                if fenums.contains_key(&p) {
+                                    continue;
+                                }
+                                let vs: Vec<String> = def
+                                    .variants()
+                                    .iter_enumerated()
+                                    .map(|(vidx, v)| {
+                                        format!(
+                                            "{{\"name\":{},\"discr\":{}}}",
+                                            js(v.name.as_str()),
+                                            def.discriminant_for_variant(tcx, vidx).val
+                                        )
+                                    })
+                                    .collect();
+                                fenums.insert(p, jarr(vs));
+                            }
+                        }
+                    }
+                }
+            }
+        }
+        for (p, vs) in fenums.iter() {
+            let _ = writeln!(out, "{{\"t\":\"fenum\",\"path\":{},\"variants\":{}}}", js(p), vs);
+        }
+    }
+
     // ADTs, consts, impls
     for id in tcx.hir_crate_items(()).definitions() {
         let did = id.to_def_id();
